@@ -15,7 +15,6 @@ nni_aio_completions_add(nni_aio_completions *clp, nni_aio *aio, nng_err result, 
 {
 	(void) clp;
 	__CPROVER_assert(g_cl.n < 4, "completions model: at most four deferred completions");
-	__CPROVER_assert(!nni_aio_list_active(aio), "completions_add: aio is not on a wait list");
 	aio->a_result    = result;
 	aio->a_count     = count;
 	g_cl.aio[g_cl.n] = aio;
